@@ -497,7 +497,29 @@ def decide(pid, pc, tier, seed, work, t0, finder_driver):
             for x in vprob:
                 print('UNDECIDED property=%s reason=%s' % (pid, x))
             rc = 2
+    stub_audit = None
+    if rc == 0 and tier == 'thorough':
+        # stub audit: every hand-written stub that stands for a function verified in another unit must claim no more
+        # than that unit proves (tools/audit_stubs.py)
+        try:
+            import audit_stubs
+            ar = []
+            with concurrent.futures.ThreadPoolExecutor(max_workers=6) as ex:
+                for r_ in ex.map(audit_stubs.audit_unit, units):
+                    ar += r_
+            bad = [a for a in ar if a['result'] == 'NOT implied']
+            stub_audit = dict(stubs=len(ar), implied=len([a for a in ar if a['result'] == 'implied']),
+                              not_checkable=['%s <- %s::%s (%s)' % (a['unit'], a['proved_in'], a['function'], a.get('why', '')[:120]) for a in ar if a['result'] == 'not checkable'],
+                              not_implied=['%s <- %s::%s (%s)' % (a['unit'], a['proved_in'], a['function'], a.get('why', '')[:120]) for a in bad])
+            for a in bad:
+                print('UNDECIDED property=%s reason=stub of %s in unit %s claims more than unit %s proves (%s)' % (pid, a['function'], a['unit'], a['proved_in'], a.get('why', '')[:100]))
+            if bad:
+                rc = 2
+        except Exception as e:
+            stub_audit = dict(error=str(e)[:200])
     ev = evidence(pid, pc, tier, seed, t0, mine, discharged, functions, results, smt_ms, verified, failures, undecided, known_hit, new_viol, funcs_time, sha)
+    if stub_audit is not None:
+        ev['coverage']['stub_audit'] = stub_audit
     if vac is not None:
         ev['coverage']['vacuity_probe'] = vac
     if retried:
